@@ -5,6 +5,7 @@ import ast
 import re
 import typing as t
 
+from .. import anchors
 from ..cfg import CFG, Node, cfg_of, node_exprs, walk_no_nested
 from ..family import (CONVERTER, SUB_METHODS, conversion_zone, family, find_subcalls, subconv_attrs, walk_with_bindings)
 from ..model import AnalysisError, ClassInfo, FuncInfo, Model, unparse
@@ -287,7 +288,7 @@ def _inherited(incoming: t.Dict[str, t.Dict[str, t.Set[str]]], f: FuncInfo, form
 
 
 def scalar_rows(model: Model) -> t.Dict[str, t.Dict[str, t.Any]]:
-    tbl = model.table('pane.converters', '_BASIC_CONVERTERS')
+    tbl = model.table('pane.converters', anchors.short(anchors.scalar_table(model)))
     m = model.module('pane.converters')
     if not isinstance(tbl, ast.Dict):
         raise AnalysisError("pane.converters._BASIC_CONVERTERS is not a dict display")
@@ -394,7 +395,7 @@ def rule_c02_r3(model: Model) -> RuleResult:
         if q in rows:
             r.ok()
         else:
-            r.fail('pane.converters._BASIC_CONVERTERS', f"no row for {q.split('.')[-1]}", f"{m.relpath}:{model.table('pane.converters', '_BASIC_CONVERTERS').lineno}",
+            r.fail('pane.converters._BASIC_CONVERTERS', f"no row for {q.split('.')[-1]}", f"{m.relpath}:{model.table('pane.converters', anchors.short(anchors.scalar_table(model))).lineno}",
                    f"interchange scalar {q.split('.')[-1]} has no row: it falls through to a subclass delegate or is unsupported")
     # NoneConverter accepts by identity only; ScalarConverter constructs only behind its isinstance gate
     nc = model.cls('pane.converters.NoneConverter')
